@@ -557,3 +557,83 @@ def c13(ctx):
         glob = [c for c in vmcases if c["spelling"] == 2 and any("sub" in json.dumps(c["defs"]) for _ in [0])]
         mc_vm(ctx, "sens-AdjustKeepsSubId", cap_texts(glob or vmcases, hi_cap=3, first_cmd_only=False),
               dev=["AdjustKeepsSubId"], expect="RefinesSemantics")
+
+
+def vm_oracle(ctx, name, cases, max_steps=20000, workers=None, timeout=900,
+              invariants=("MatchWF", "LineColOK", "NoStuck", "StepBound", "TypeOK", "RefinesSemantics")):
+    """Run spec/VM.tla on the cases and use the machine as oracle: returns the
+    expectation documents (matches and instruction counts per text)."""
+    d = ctx.scratch.sub("vmo_" + name)
+    with open(os.path.join(d, "cases.ndjson"), "w") as f:
+        for c in cases:
+            f.write(json.dumps(c, separators=(",", ":")) + "\n")
+    cfg = ("SPECIFICATION Spec\nCONSTANT CaseFile = \"cases.ndjson\"\nCONSTANT MaxSteps = %d\nCONSTANT Dev = {}\n"
+           "INVARIANTS %s EmitDone\nCHECK_DEADLOCK FALSE\n" % (max_steps, " ".join(invariants)))
+    out, st = vlib.run_tlc(d, "VM", cfg, workers=workers or vlib.NCPU, timeout=timeout, heap="8g")
+    if not st["ok"]:
+        raise Undecided("model checking of spec/VM.tla failed:\n" + vlib.tlc_error_excerpt(out, 60))
+    by_id = {}
+    for doc in vlib.tlc_json_lines(out):
+        r = json.loads(doc)
+        by_id.setdefault(r["id"], []).append({"t": r["t"], "ms": r["ms"], "firm": True, "undef": False,
+                                               "noret": False, "steps": r["steps"]})
+    exps = [{"id": i, "r": rs} for i, rs in by_id.items()]
+    ctx.add_mc("VM:" + name, st, "every behaviour of the engine model over the scope reaches `done` within MaxSteps=%d instructions "
+               "(StepBound), never gets stuck (NoStuck), reports well-formed matches (MatchWF) equal to the reference semantics" % max_steps)
+    return exps, st
+
+
+FIELDS["C09"] = ["panic", "crash", "hang", "cpanic", "wf", "filediff"]
+RULES["C09"] = ("programs: C09_Bodies of spec/Scope.tla (empty bodies and groups, empty literals, nullable captures followed by "
+                "back-references, every anchor and class at both ends of the input, whole file/line/word, multi-byte `not in` "
+                "items, ranges with unequal ends) x ALL strings over {a,b,space,newline} of length 0..3 (so every truncation "
+                "of every matching text), through Run and through RunFiles on a file with the same bytes; plus the C02 "
+                "capture scope; plus transforms with `match` in every operand position applied to arbitrary match text; "
+                "non-trivial = the specification expects a match or an undefined value")
+
+
+@check("C09")
+def c09(ctx):
+    ctx.technique = ("NoStuck invariant of spec/VM.tla model-checked over the crash scope; every case run through Run and "
+                     "RunFiles under recover; failures whose signature the specification computes matched against known findings")
+    quick = ctx.tier == "quick"
+    cases = ctx.gen_cases("C09")
+    # the design: the engine model cannot get stuck on any generated program
+    runnable = [c for c in cases if "whole" not in json.dumps(c)]
+    mc_vm(ctx, "nostuck", cap_texts(runnable, hi_cap=3), invariants=("MatchWF", "LineColOK", "NoStuck", "StepBound", "TypeOK", "RefinesSemantics"),
+          what="NoStuck/StepBound/MatchWF in every state of the engine model over the crash scope (incl. the empty text)")
+    ctx.replay("C09-core", cases, FIELDS["C09"], mode="both")
+    c2 = ctx.gen_cases("C02")
+    ctx.replay("C09-captures-files", [c for c in c2 if quick and c["id"] % 3 == 0 or not quick], FIELDS["C09"], mode="both")
+    pc = ctx.gen_cases("C09P")
+    ctx.replay("C09-process", pc, FIELDS["C09"])
+
+
+FIELDS["C10"] = ["budget", "hang", "crash", "panic", "spans"]
+RULES["C10"] = ("programs: C10_Bodies of spec/Scope.tla: loops {maybe, at least 0/1/2, at most 2} greedy and fewest nested to "
+                "depth 3 over nullable bodies (all anchors and negations, (), maybe 'a', 'a' or (), nullable captures, calls "
+                "of nullable subroutines, not in, lazy any*) x all strings over {a,space,newline} up to the tier's length; "
+                "the real engine runs under an instruction budget of 1000 x the model's step count + 10^4; non-trivial = "
+                "the model needs more than 20 instructions")
+
+
+@check("C10")
+def c10(ctx):
+    ctx.technique = ("termination of spec/VM.tla model-checked (StepBound safety form; liveness <>done under weak fairness in "
+                     "the thorough tier; NoZeroWidthGuard switch must give a counterexample); the real engine replayed under an "
+                     "instruction budget derived from the model's step counts (hook H1)")
+    quick = ctx.tier == "quick"
+    cases = ctx.gen_cases("C10")
+    exps, st = vm_oracle(ctx, "terminate", cap_texts(cases), max_steps=20000)
+    nontriv = sum(1 for e in exps for r in e["r"] if r["steps"] > 20)
+    rep = ctx.replay("C10-budget", cases, FIELDS["C10"], exps=exps, extra=["-budget-mul", "1000"], timeout=60)
+    ctx.nontrivial = nontriv
+    ctx.diagnostics["max_model_steps"] = max(r["steps"] for e in exps for r in e["r"])
+    # sensitivity: without the zero-width guard the model spins
+    sens = [c for c in cases if c["id"] % 40 == 0]
+    mc_vm(ctx, "sens-NoZeroWidthGuard", cap_texts(sens, hi_cap=2), dev=["NoZeroWidthGuard"], expect="StepBound", max_steps=3000,
+          invariants=("StepBound",))
+    if not quick:
+        live = [c for c in cases if c["id"] % 4 == 0]
+        mc_vm(ctx, "liveness", cap_texts(live, hi_cap=3), liveness=True, invariants=("StepBound", "NoStuck"),
+              what="<>(phase = done) under WF(Next) for every behaviour (no non-progress cycle)")
